@@ -59,7 +59,7 @@ def part(tier, seed, which=('map', 'sched'), pid='C08'):
                     v += map_drv.check_map(sim, c, opts['strip_forks'], opts['c_reuse'], capl, cmin)
                 if 'sched' in which:
                     v += map_drv.check_sched(sim, c, opts['strip_forks'])
-                if 'map' in which and cmin == 1:
+                if 'map' in which:
                     v += map_drv.check_live_hypotheses(sim, c, opts['strip_forks'])
                 v += map_drv.check_phase_requires(sim, c, opts['strip_forks'])
                 for clause, msg in v:
